@@ -39,8 +39,9 @@ for e in sorted(kf["known"], key=lambda e: e["property"]):
 out.append("")
 out.append("### Which checks catch which seeded changes (`/verif/seeded/<id>/`)\n")
 out.append("Each change was written by a fresh agent that saw only the property text and a scratch worktree; confirmed by the integrator (`tools/confirm_seed.sh`: demo passes on the clean tree, fails with the patch, existing package tests pass) and run in isolation (`tools/run_seeded.sh`).\n")
-out.append("| id | what it breaks / needs | first run | after strengthening |")
-out.append("|---|---|---|---|")
+out.append("The last column is the final regression: every kept change re-run against the final version of the check of the property it was written for (`tools/seed_regress.sh`).\n")
+out.append("| id | what it breaks / needs | first run | after strengthening | final regression (owner check) |")
+out.append("|---|---|---|---|---|")
 def short(s, n=260):
     s = " ".join(str(s).split())
     return s if len(s) <= n else s[:n] + "…"
@@ -52,7 +53,9 @@ for d in sorted(glob.glob(os.path.join(ROOT, "seeded", "*"))):
     i = first.find("run_seeded")
     first = first[i:] if i >= 0 else first
     rer = "; ".join(m.get("reruns", [])) or "—"
-    out.append("| %s | %s — needs: %s | %s | %s |" % (os.path.basename(d), short(m.get("breaks", ""), 200).replace("|", "/"), short(m.get("needs", ""), 200).replace("|", "/"), short(first, 300).replace("|", "/"), short(rer, 300).replace("|", "/")))
+    rg = m.get("regression")
+    rgs = "—" if not rg else ("%s: %s (concrete replays %d%s)" % ("detected" if rg.get("detected") else "NOT detected", short(rg.get("verdict", ""), 120), rg.get("concrete_replays", 0), ", no-failing-input-found" if rg.get("no_failing_input_found") and not rg.get("concrete_replays") else ""))
+    out.append("| %s | %s — needs: %s | %s | %s | %s |" % (os.path.basename(d), short(m.get("breaks", ""), 200).replace("|", "/"), short(m.get("needs", ""), 200).replace("|", "/"), short(first, 300).replace("|", "/"), short(rer, 300).replace("|", "/"), rgs.replace("|", "/")))
 txt = "\n".join(out) + "\n"
 p = os.path.join(ROOT, "DESIGN.md")
 s = open(p).read()
